@@ -196,6 +196,71 @@ class Canon:
             return None
         return creation, seq
 
+    # ---- range bounds in linear normal form ------------------------------------------------------------------------
+    def linear_of_text(self, s_, depth=0):
+        """({atom text: coefficient}, constant) of a rendered integer expression built with checked + and -"""
+        if s_.isdigit():
+            return {}, int(s_)
+        if s_.startswith('0x'):
+            try:
+                return {}, int(s_, 16)
+            except ValueError:
+                pass
+        if s_.startswith(('SubWithOverflow(', 'AddWithOverflow(')) and s_.endswith(').0') and depth < 12:
+            inner = s_[16:-3]
+            parts, d, cur = [], 0, ''
+            i = 0
+            while i < len(inner):
+                ch = inner[i]
+                if ch in '([{':
+                    d += 1
+                elif ch in ')]}':
+                    d -= 1
+                if d == 0 and inner.startswith(', ', i):
+                    parts.append(cur)
+                    cur = ''
+                    i += 2
+                    continue
+                cur += ch
+                i += 1
+            parts.append(cur)
+            if len(parts) == 2 and d == 0:
+                a, ca = self.linear_of_text(parts[0], depth + 1)
+                b, cb = self.linear_of_text(parts[1], depth + 1)
+                sg = 1 if s_.startswith('Add') else -1
+                out = dict(a)
+                for k_, v_ in b.items():
+                    out[k_] = out.get(k_, 0) + sg * v_
+                    if out[k_] == 0:
+                        del out[k_]
+                return out, ca + sg * cb
+        return {s_: 1}, 0
+
+    def bound(self, e):
+        """a slice bound: sums and differences are collected (c1 + (len - c1 - 32) is len - 32); the usual shapes keep the
+        text the compiler's checked arithmetic gives them.  The bound is rendered once and the linear form is read off the
+        text, so nested bounds cost what they cost before."""
+        plain = self.c(e)
+        if not plain.startswith(('SubWithOverflow(', 'AddWithOverflow(')):
+            return plain
+        atoms, c = self.linear_of_text(plain)
+        if not atoms:
+            return str(c) if 0 <= c < 1 << 16 else (hex(c) if c >= 0 else str(c))
+        if len(atoms) == 1 and list(atoms.values()) == [1]:
+            a = list(atoms)[0]
+            if c == 0:
+                return a
+            return '%sWithOverflow(%s, %d).0' % ('Add' if c > 0 else 'Sub', a, abs(c))
+        # keep the original text when nothing was actually simplified (one + or - of two atoms)
+        if len(atoms) == 2 and c == 0 and sorted(atoms.values()) == [-1, 1]:
+            pos = [k_ for k_, v_ in atoms.items() if v_ == 1][0]
+            neg = [k_ for k_, v_ in atoms.items() if v_ == -1][0]
+            return 'SubWithOverflow(%s, %s).0' % (pos, neg)
+        if len(atoms) == 2 and sorted(atoms.values()) == [1, 1] and c == 0:
+            return plain
+        terms = ' '.join('%+d*%s' % (v_, k_) for k_, v_ in sorted(atoms.items()))
+        return 'lin(%s %+d)' % (terms, c)
+
     # ---- iterator elements in index form -------------------------------------------------------------------------
     def coll_len(self, x):
         """canonical length of a collection expression: the constant for arrays / constant sub-slices, else len(x)"""
@@ -309,11 +374,21 @@ class Canon:
         return out
 
     def c(self, e):
+        # memo: the same sub-expression object is rendered many times (bounds inside bounds); the entry keeps the object
+        # alive so its id cannot be reused.  Depth-truncated renderings are not cached.
+        memo = self.__dict__.setdefault('_memo', {})
+        key = (id(e), len(self.bare), len(self.commut))
+        hit = memo.get(key)
+        if hit is not None and hit[0] is e:
+            return hit[1]
         self.depth += 1
         try:
             if self.depth > 60:
                 return '...'
-            return self._c(e)
+            r = self._c(e)
+            if '...' not in r:
+                memo[key] = (e, r)
+            return r
         finally:
             self.depth -= 1
 
@@ -416,6 +491,21 @@ class Canon:
                     a0 = strip(a0.args[0])
                 if a0.k == 'aggr' and a0.name in ('Option::Some', 'Result::Ok') and a0.args:
                     return self.c(a0.args[0])
+            if ln == 'len' and len(e.args) == 1:
+                # the length of a sub-slice in terms of the original: len(x[a..]) = len(x) - a, len(x[a..b]) = b - a
+                x_ = strip(e.args[0])
+                if x_.k == 'call' and last(x_.name) in ('index', 'index_mut') and len(x_.args) == 2:
+                    r_ = strip(x_.args[1])
+                    if r_.k == 'aggr' and r_.name == 'RangeFrom::RangeFrom':
+                        return 'SubWithOverflow(len(%s), %s).0' % (self.c(x_.args[0]), self.c(r_.args[0]))
+                    if r_.k == 'aggr' and r_.name == 'RangeTo::RangeTo':
+                        return self.c(r_.args[0])
+                    if r_.k == 'aggr' and r_.name == 'Range::Range':
+                        a_, b_ = const_int(r_.args[0]), const_int(r_.args[1])
+                        if a_ is not None and b_ is not None:
+                            return str(b_ - a_)
+                        if a_ == 0:
+                            return self.c(r_.args[1])
             bt_ = be_call_type(e)
             if bt_ and bt_[0] == 'from' and len(e.args) == 1 and strip(e.args[0]).k == 'aggr' and strip(e.args[0]).name == 'array' and len(strip(e.args[0]).args) == bt_[2]:
                 # uN::from_be_bytes([b0, b1, ..]) == uN::from(b0) << 8(n-1) | ... | uN::from(b_{n-1})
@@ -482,6 +572,8 @@ class Canon:
                 v = const_int(e)
                 if v is not None:
                     return 'arr:%s' % hex(v)
+            if e.name in ('Range::Range', 'RangeFrom::RangeFrom', 'RangeTo::RangeTo') and e.args:
+                return '%s{%s}' % (e.name, ', '.join(self.bound(a) for a in e.args))
             return '%s{%s}' % (e.name, ', '.join(self.c(a) for a in e.args))
         if k in ('binop', 'unop'):
             return '%s(%s)' % (e.name, ', '.join(self.c(a) for a in e.args))
